@@ -5134,11 +5134,120 @@ def extract_eff(fn, path):
     return r
 
 
-def lean_eff(r, path, prim):
+LOC_FIELDS = ['out', 'zN', 'u', 'uN', 'v', 'va', 'vai', 'vb', 'vbi', 'e', 'callee', 'cm', 'c1', 'c2', 'se', 'se1', 'se2', 'sa', 'sam', 'sau', 'sav',
+              'sam2', 'sav2', 'sau2', 'numer', 'o1', 'o2', 'o3', 'nd', 't', 'tz', 'denom', 'd1', 'dp', 'd2', 'd3', 'st', 'sti', 'sn', 'sd', 'ret']
+LOC_NUM = {'nd', 'tz', 'dp'}
+
+
+def extract_loc(fn, path):
+    """efficiency_bin: the statements of the `if local:` branch (Model/CoreIRLoc.lean: LocIR); the common fields come from extract_eff"""
+    X = _TX
+    r = Routine(fn.name, path)
+    r.line = fn.lineno
+    f = {k: ('99' if k in LOC_NUM else q('?')) for k in LOC_FIELDS}
+    r.fields = f
+
+    def sub(node, what):
+        if isinstance(node, ast.Subscript):
+            return node.value, node.slice
+        raise Unrec(node, 'expected `%s`' % what)
+
+    def at2(node, what):
+        v, sl = sub(node, what)
+        if isinstance(sl, ast.Tuple) and len(sl.elts) == 2:
+            return v, sl.elts[0], sl.elts[1]
+        raise Unrec(node, 'expected `%s`' % what)
+
+    def tr(node, what):
+        if isinstance(node, ast.Attribute) and node.attr == 'T':
+            return node.value
+        raise Unrec(node, 'expected `%s`' % what)
+    try:
+        body = body_wo_doc(fn)
+        if len(body) < 2 or not isinstance(body[-2], ast.If) or not isinstance(body[-1], ast.Return) or body[-1].value is None:
+            raise Unrec(fn, 'expected `if local: … else: …` and `return E` at the end')
+        br = body[-2].body
+        r.parts = {'body': lines_of(br)}
+        r.counts = {'if_branch': len(br)}
+        if len(br) != 2:
+            raise Unrec(body[-2], 'expected two statements in the `if local:` branch, found %d' % len(br))
+        w = 'E = np.zeros((n,))'
+        t, v = X.assign(br[0], w)
+        z = X.np1(v, 'zeros', w)[0]
+        if not (isinstance(z, ast.Tuple) and len(z.elts) == 1):
+            raise Unrec(br[0], 'expected `%s`' % w)
+        f['out'], f['zN'] = X.nm(t, 'target'), X.nm(z.elts[0], 'length')
+        lp = br[1]
+        it = lp.iter if isinstance(lp, ast.For) else None
+        if not (it is not None and not lp.orelse and isinstance(it, ast.Call) and isinstance(it.func, ast.Name) and it.func.id == 'range'
+                and len(it.args) == 1 and not it.keywords and len(lp.body) == 6):
+            raise Unrec(lp, 'expected `for u in range(n):` with six statements')
+        f['u'], f['uN'] = X.nm(lp.target, 'loop variable'), X.nm(it.args[0], 'bound')
+        b0, b1, b2, b3, b4, b5 = lp.body
+        w = 'V, = np.where(np.logical_or(G[u, :], G[:, u].T))'
+        t, v = X.assign(b0, w)
+        lo = np_call(X.np1(v, 'where', w)[0], 'logical_or', 2)
+        if not (isinstance(t, ast.Tuple) and len(t.elts) == 1 and lo):
+            raise Unrec(b0, 'expected `%s`' % w)
+        va, vai, s1 = at2(lo[0], w)
+        vb, s2, vbi = at2(tr(lo[1], w), w)
+        if not (full_slice(s1) and full_slice(s2)):
+            raise Unrec(b0, 'expected `%s`' % w)
+        f['v'], f['va'], f['vai'], f['vb'], f['vbi'] = X.nm(t.elts[0], 'target'), X.nm(va, 'matrix'), X.nm(vai, 'node'), X.nm(vb, 'matrix'), X.nm(vbi, 'node')
+        w = 'e = distance_inv(G[np.ix_(V, V)])'
+        t, v = X.assign(b1, w)
+        if not (isinstance(v, ast.Call) and isinstance(v.func, ast.Name) and len(v.args) == 1 and not v.keywords):
+            raise Unrec(b1, 'expected `%s`' % w)
+        cm, ix = sub(v.args[0], w)
+        ixa = np_call(ix, 'ix_', 2)
+        if not ixa or ix.keywords:
+            raise Unrec(b1, 'expected `%s`' % w)
+        f['e'], f['callee'], f['cm'], f['c1'], f['c2'] = X.nm(t, 'target'), q(v.func.id), X.nm(cm, 'matrix'), X.nm(ixa[0], 'neighbours'), X.nm(ixa[1], 'neighbours')
+        w = 'se = e + e.T'
+        t, v = X.assign(b2, w)
+        l, rt = X.binop(v, ast.Add, w)
+        f['se'], f['se1'], f['se2'] = X.nm(t, 'target'), X.nm(l, 'summand'), X.nm(tr(rt, w), 'transposed summand')
+        w = 'sa = G[u, V] + G[V, u].T'
+        t, v = X.assign(b3, w)
+        l, rt = X.binop(v, ast.Add, w)
+        m1, u1, v1 = at2(l, w)
+        m2, v2, u2 = at2(tr(rt, w), w)
+        f['sa'], f['sam'], f['sau'], f['sav'] = X.nm(t, 'target'), X.nm(m1, 'matrix'), X.nm(u1, 'node'), X.nm(v1, 'neighbours')
+        f['sam2'], f['sav2'], f['sau2'] = X.nm(m2, 'matrix'), X.nm(v2, 'neighbours'), X.nm(u2, 'node')
+        w = 'numer = np.sum(np.outer(sa.T, sa) * se) / 2'
+        t, v = X.assign(b4, w)
+        sm_, nd = X.binop(v, ast.Div, w)
+        ou, o3 = X.binop(X.np1(sm_, 'sum', w)[0], ast.Mult, w)
+        oa = np_call(ou, 'outer', 2)
+        if not oa or ou.keywords:
+            raise Unrec(b4, 'expected `%s`' % w)
+        f['numer'], f['o1'], f['o2'], f['o3'], f['nd'] = X.nm(t, 'target'), X.nm(tr(oa[0], w), 'factor'), X.nm(oa[1], 'factor'), X.nm(o3, 'factor'), X.nat(nd, 'divisor')
+        w = 'if numer != 0: denom = np.sum(sa)**2 - np.sum(sa * sa); E[u] = numer / denom'
+        if not (isinstance(b5, ast.If) and not b5.orelse and len(b5.body) == 2 and isinstance(b5.test, ast.Compare) and len(b5.test.ops) == 1
+                and isinstance(b5.test.ops[0], ast.NotEq)):
+            raise Unrec(b5, 'expected `%s`' % w)
+        f['t'], f['tz'] = X.nm(b5.test.left, 'tested name'), X.nat(b5.test.comparators[0], 'literal')
+        t, v = X.assign(b5.body[0], w)
+        pw, s2_ = X.binop(v, ast.Sub, w)
+        base, dp = X.binop(pw, ast.Pow, w)
+        d2, d3 = X.binop(X.np1(s2_, 'sum', w)[0], ast.Mult, w)
+        f['denom'], f['d1'], f['dp'], f['d2'], f['d3'] = X.nm(t, 'target'), X.nm(X.np1(base, 'sum', w)[0], 'links'), X.nat(dp, 'exponent'), X.nm(d2, 'links'), X.nm(d3, 'links')
+        t, v = X.assign(b5.body[1], w)
+        st, sti = sub(t, w)
+        sn, sd = X.binop(v, ast.Div, w)
+        f['st'], f['sti'], f['sn'], f['sd'] = X.nm(st, 'target'), X.nm(sti, 'node'), X.nm(sn, 'numerator'), X.nm(sd, 'denominator')
+        f['ret'] = X.nm(body[-1].value, 'returned value')
+    except Unrec as e:
+        r.bad(e.node if hasattr(e.node, 'lineno') else fn, e.msg)
+    return r
+
+
+def lean_eff(r, path, prim, rl=None):
     relb = os.path.basename(path)
     f = r.fields
     a, b = r.parts.get('body', (r.line, r.line))
     out = ['import BctVerif.Props.CoresEff',
+           'import BctVerif.Props.CoresLoc',
            'import BctVerif.Props.CoresUtil',
            '/-!',
            '# GENERATED by translate/cores.py (family eff) — do not edit.  Re-emitted from the current source on every check run.',
@@ -5153,7 +5262,7 @@ def lean_eff(r, path, prim):
     for p in r.problems:
         out.append('-- NOT RECOGNISED: ' + p.replace('\n', ' '))
     out.append('/-- the nested function of `efficiency_bin` -/\ndef ir_efficiency_bin_inner : BinIR :=\n  %s\n' % f['inner'])
-    out.append('/-- `efficiency_bin` (%s:%d); the statements of the `if local:` branch are not extracted -/' % (relb, r.line))
+    out.append('/-- `efficiency_bin` (%s:%d); the `if local:` branch is the separate value `loc_efficiency_bin` -/' % (relb, r.line))
     out.append('def ir_efficiency_bin : EffIR :=\n  { recognised := %s, origins := %s,\n    params := %s, defaults := %s,\n    innerName := %s,\n'
                '    inner := %s,\n    pre := %s,\n    %s }\n'
                % ('true' if not r.problems else 'false', lean_origins(r), f['params'], f['defaults'], f['innerName'], 'ir_efficiency_bin_inner', f['pre'],
@@ -5164,6 +5273,22 @@ def lean_eff(r, path, prim):
     out.append('theorem efficiency_bin_computes {n : Nat} (A : AMat Rat n) :\n'
                '    (runEff ir_efficiency_bin (n * n + 2) (embA A)).map (fun o => o.map Ext.fin) = efficiencyBin A :=\n'
                '  link_efficiency_bin _ efficiency_bin_ok A\n')
+    if rl is not None:
+        fl = rl.fields
+        a2, b2 = rl.parts.get('body', (rl.line, rl.line))
+        for p in rl.problems:
+            out.append('-- NOT RECOGNISED: ' + p.replace('\n', ' '))
+        out.append('/-- the `if local:` branch of `efficiency_bin` (%s:%d-%d) with the nested function and the statements before the `if` -/' % (relb, a2, b2))
+        out.append('def loc_efficiency_bin : Bct.CoreIR.Loc.LocIR :=\n  { recognised := %s, origins := %s,\n    params := %s, defaults := %s,\n    innerName := %s,\n'
+                   '    inner := ir_efficiency_bin_inner,\n    pre := %s, dim := %s, dimOf := %s, flag := %s,\n    %s }\n'
+                   % ('true' if not (r.problems or rl.problems) else 'false', lean_origins(r), f['params'], f['defaults'], f['innerName'], f['pre'],
+                      f['dim'], f['dimOf'], f['flag'], ', '.join('%s := %s' % (k, fl[k]) for k in LOC_FIELDS)))
+        out.append('theorem efficiency_bin_local_ok : Bct.CoreIR.Loc.locOk loc_efficiency_bin = true := by\n  first | decide | fail "efficiency_bin_local_ok: '
+                   'the statements of the `if local:` branch extracted from efficiency_bin (%s:%d-%d) %s"\n'
+                   % (relb, a2, b2, 'were not all recognised by translate/cores.py' if (r.problems or rl.problems) else 'are not the expected program'))
+        out.append('theorem efficiency_bin_local_computes {n : Nat} (A : AMat Rat n) (u : Fin n) :\n'
+                   '    Bct.CoreIR.Loc.runLoc loc_efficiency_bin (fun k => k * k + 2) (embA A) u = Bct.LocalEff.effBinNode A u :=\n'
+                   '  Bct.Cores.Loc.link_efficiency_bin_local _ efficiency_bin_local_ok A u\n')
     out.append('end Bct.Gen.CoresEff')
     return '\n'.join(out) + '\n'
 
@@ -5187,10 +5312,19 @@ def family_eff():
         r.fields.update(den='(.lit 0)', params='[]', defaults='[]', pre='[]',
                         inner='{ recognised := false, origins := [], param := "?", pre := [], cond := "?", body := [], post := [], ret := "?" }')
     prim = fold_util_primitive(path, 'binarize')
-    return {'module': 'BctVerif.Gen.CoresEff', 'file': 'CoresEff.lean', 'text': lean_eff(r, path, prim), 'sources': [path],
+    if name in fns:
+        try:
+            rl = extract_loc(fns[name], path)
+        except Exception as e:  # noqa
+            rl = Routine(name, path); rl.problems.append('%s: extractor of the `if local:` branch raised %s: %s' % (name, type(e).__name__, e))
+            rl.fields = {k: ('99' if k in LOC_NUM else q('?')) for k in LOC_FIELDS}
+    else:
+        rl = Routine(name, path); rl.fields = {k: ('99' if k in LOC_NUM else q('?')) for k in LOC_FIELDS}
+    return {'module': 'BctVerif.Gen.CoresEff', 'file': 'CoresEff.lean', 'text': lean_eff(r, path, prim, rl), 'sources': [path],
             'routines': {r.name: dict(getattr(r, 'counts', {}), line=r.line, recognised=not r.problems),
+                         r.name + ' (local branch)': dict(getattr(rl, 'counts', {}), line=rl.line, recognised=not rl.problems),
                          'binarize (called by efficiency_bin)': dict(line=prim.line, file=rel(prim.file), recognised=not prim.problems)},
-            'problems': list(r.problems) + list(prim.problems)}
+            'problems': list(r.problems) + list(rl.problems) + list(prim.problems)}
 
 
 # ====================================================================== family 'walks'
@@ -5732,6 +5866,221 @@ def extract_agg(fn, path):
     return r
 
 
+SWEEP_FIELDS = ['name', 'params', 'defaults', 'sT', 'sOf', 'sums', 'copies', 'm', 'mN', 'mOff', 'fl', 'flInit', 'it', 'it0', 'wTest', 'itI', 'itBy',
+                'itT', 'itLim', 'exc', 'flR', 'flRVal', 'u', 'rng', 'pn', 'ma', 'maOf', 'maI', 'maOff', 'terms', 'comb', 'z', 'zi', 'zv', 'mx', 'mxOf',
+                'tl', 'thrNum', 'thrDen', 'j', 'amOf', 'cols', 'vecs', 'sm', 'smi', 'smv', 'smOff', 'flS', 'flSVal']
+SWEEP_NUM = {'mOff', 'it0', 'itBy', 'itLim', 'maOff', 'zv', 'thrNum', 'thrDen', 'smOff'}
+SWEEP_BOOL = {'flInit', 'flRVal', 'flSVal'}
+SWEEP_LIST = {'sums', 'copies', 'terms', 'cols', 'vecs'}
+
+
+def sweep_default():
+    return {k: ('99' if k in SWEEP_NUM else 'false' if k in SWEEP_BOOL else '[]' if k in SWEEP_LIST else 'none' if k == 'comb' else q('?'))
+            for k in SWEEP_FIELDS}
+
+
+def extract_sweep(fn, path):
+    """modularity_louvain_und / _dir: `s = np.sum(W)` and, in the body of `while True:`, the statements from the degree vectors to the end of
+    `while flag:` (Model/CoreIRLouv.lean: SweepIR)"""
+    X = _TX
+    r = Routine(fn.name, path)
+    r.line = fn.lineno
+    a = fn.args
+    f = sweep_default()
+    f['name'] = q(fn.name)
+    f['params'] = lst(q(x.arg) for x in a.args)
+    f['defaults'] = lean_defaults(defaults_of(fn))
+    r.fields = f
+
+    def sub(node, what):
+        if isinstance(node, ast.Subscript):
+            return node.value, node.slice
+        raise Unrec(node, 'expected `%s`' % what)
+
+    def boollit(node, what):
+        if isinstance(node, ast.Constant) and isinstance(node.value, bool):
+            return 'true' if node.value else 'false'
+        raise Unrec(node, 'expected `True` or `False` as %s' % what)
+
+    def at2(node, what):
+        """A[i, j] -> (A, i, j);  j may be a full slice (returned as None)"""
+        v, sl = sub(node, what)
+        if isinstance(sl, ast.Tuple) and len(sl.elts) == 2:
+            return v, sl.elts[0], sl.elts[1]
+        raise Unrec(node, 'expected `%s`' % what)
+
+    def term(st):
+        w = 'dQ = (Knm[i, :] - Knm[i, ma] + W[i, i]) - gamma * k[i] * (Km - Km[ma] + k[i]) / s'
+        t, v = X.assign(st, w)
+        lhs, rhs = X.binop(v, ast.Sub, w)
+        l1, wii = X.binop(lhs, ast.Add, w)
+        row, cell = X.binop(l1, ast.Sub, w)
+        a1, i1, sl = at2(row, w)
+        if not full_slice(sl):
+            raise Unrec(row, 'expected `%s`' % w)
+        a2, i2, ma1 = at2(cell, w)
+        wv, wi, wj = at2(wii, w)
+        num, sden = X.binop(rhs, ast.Div, w)
+        gk, par = X.binop(num, ast.Mult, w)
+        g, k1 = X.binop(gk, ast.Mult, w)
+        k1v, k1i = sub(k1, w)
+        p1, k2 = X.binop(par, ast.Add, w)
+        km1, km2m = X.binop(p1, ast.Sub, w)
+        km2, ma2 = sub(km2m, w)
+        k2v, k2i = sub(k2, w)
+        vals = [X.nm(t, 'target'), X.nm(a1, 'matrix'), X.nm(i1, 'node'), X.nm(a2, 'matrix'), X.nm(i2, 'node'), X.nm(ma1, 'module'), X.nm(wv, 'matrix'),
+                X.nm(wi, 'node'), X.nm(wj, 'node'), X.nm(g, 'resolution'), X.nm(k1v, 'degrees'), X.nm(k1i, 'node'), X.nm(km1, 'module degrees'),
+                X.nm(km2, 'module degrees'), X.nm(ma2, 'module'), X.nm(k2v, 'degrees'), X.nm(k2i, 'node'), X.nm(sden, 'total weight')]
+        keys = ['t', 'a1', 'i1', 'a2', 'i2', 'ma1', 'w', 'wi', 'wj', 'g', 'k1', 'k1i', 'km1', 'km2', 'ma2', 'k2', 'k2i', 's']
+        return '{ ' + ', '.join('%s := %s' % kv for kv in zip(keys, vals)) + ' }'
+
+    def upd(st):
+        """-> ('col' | 'vec', Lean text)"""
+        w = 'an update `Knm[:, j] += W[:, i]` / `Km[j] += k[i]`'
+        if not (isinstance(st, ast.AugAssign) and isinstance(st.op, (ast.Add, ast.Sub)) and isinstance(st.target, ast.Subscript)):
+            raise Unrec(st, 'expected %s, found %s' % (w, src_of(st)))
+        plus = 'true' if isinstance(st.op, ast.Add) else 'false'
+        tv, ts = sub(st.target, w)
+        if isinstance(ts, ast.Tuple):
+            if not (len(ts.elts) == 2 and full_slice(ts.elts[0])):
+                raise Unrec(st, 'expected %s, found %s' % (w, src_of(st)))
+            src = st.value
+            row = 'false'
+            if isinstance(src, ast.Attribute) and src.attr == 'T':
+                sv, si, sl = at2(src.value, w)
+                row = 'true'
+            else:
+                sv, sl, si = at2(src, w)
+            if not full_slice(sl):
+                raise Unrec(st, 'expected %s, found %s' % (w, src_of(st)))
+            return 'col', '{ mat := %s, c := %s, plus := %s, src := %s, si := %s, srcRow := %s }' % (
+                X.nm(tv, 'matrix'), X.nm(ts.elts[1], 'module'), plus, X.nm(sv, 'matrix'), X.nm(si, 'node'), row)
+        sv, si = sub(st.value, w)
+        return 'vec', '{ vec := %s, c := %s, plus := %s, src := %s, si := %s }' % (X.nm(tv, 'vector'), X.nm(ts, 'module'), plus, X.nm(sv, 'vector'), X.nm(si, 'node'))
+    try:
+        body = body_wo_doc(fn)
+        ss = [st for st in body if isinstance(st, ast.Assign) and np_call(st.value, 'sum', 1) and not st.value.keywords]
+        if len(ss) != 1:
+            raise Unrec(fn, 'expected exactly one `s = np.sum(W)` before `while True:`')
+        f['sT'], f['sOf'] = X.nm(ss[0].targets[0], 'target'), X.nm(ss[0].value.args[0], 'matrix')
+        wl = [st for st in body if isinstance(st, ast.While)]
+        if len(wl) != 1 or not (isinstance(wl[0].test, ast.Constant) and wl[0].test.value is True):
+            raise Unrec(fn, 'expected exactly one top-level `while True:`')
+        wb = wl[0].body
+        inner = [k_ for k_, st in enumerate(wb) if isinstance(st, ast.While)]
+        if len(inner) != 1 or not (wb and isinstance(wb[0], ast.If)):
+            raise Unrec(wl[0], 'expected the `if h > 300:` guard first and exactly one `while flag:` in the body of `while True:`')
+        pre, wf = wb[1:inner[0]], wb[inner[0]]
+        r.parts = {'body': lines_of(wb[1:inner[0] + 1])}
+        r.counts = {'statements': inner[0]}
+        sums, copies = [], []
+        k = 0
+        while k < len(pre) and isinstance(pre[k], ast.Assign) and np_call(pre[k].value, 'sum', 1):
+            w = 'k = np.sum(W, axis=0)'
+            t, v = X.assign(pre[k], w)
+            e, kw_ = X.np1(v, 'sum', w, ('axis',))
+            sums.append('(%s, %s, %s)' % (X.nm(t, 'target'), X.nm(e, 'matrix'), X.nat(kw_['axis'], 'axis')))
+            k += 1
+        while (k < len(pre) and isinstance(pre[k], ast.Assign) and isinstance(pre[k].value, ast.Call) and isinstance(pre[k].value.func, ast.Attribute)
+               and pre[k].value.func.attr == 'copy'):
+            w = 'Km = k.copy()'
+            t, v = X.assign(pre[k], w)
+            if v.args or v.keywords:
+                raise Unrec(pre[k], 'expected `%s`' % w)
+            copies.append('(%s, %s)' % (X.nm(t, 'target'), X.nm(v.func.value, 'source')))
+            k += 1
+        f['sums'], f['copies'] = lst(sums), lst(copies)
+        if len(pre) - k != 3:
+            raise Unrec(wl[0], 'expected `m = np.arange(n) + 1`, `flag = True`, `it = 0` between the copies and `while flag:`, found %d statements' % (len(pre) - k))
+        w = 'm = np.arange(n) + 1'
+        t, v = X.assign(pre[k], w)
+        ar, off = X.binop(v, ast.Add, w)
+        f['m'], f['mN'], f['mOff'] = X.nm(t, 'target'), X.nm(X.np1(ar, 'arange', w)[0], 'size'), X.nat(off, 'offset')
+        t, v = X.assign(pre[k + 1], 'flag = True')
+        f['fl'], f['flInit'] = X.nm(t, 'target'), boollit(v, 'initial value')
+        t, v = X.assign(pre[k + 2], 'it = 0')
+        f['it'], f['it0'] = X.nm(t, 'target'), X.nat(v, 'initial value')
+        if wf.orelse or len(wf.body) != 4:
+            raise Unrec(wf, 'expected `while flag:` with four statements')
+        f['wTest'] = X.nm(wf.test, 'test')
+        b0, b1, b2, lp = wf.body
+        if not (isinstance(b0, ast.AugAssign) and isinstance(b0.op, ast.Add)):
+            raise Unrec(b0, 'expected `it += 1`')
+        f['itI'], f['itBy'] = X.nm(b0.target, 'counter'), X.nat(b0.value, 'increment')
+        if not (isinstance(b1, ast.If) and not b1.orelse and len(b1.body) == 1 and isinstance(b1.body[0], ast.Raise) and b1.body[0].cause is None
+                and isinstance(b1.body[0].exc, ast.Call) and isinstance(b1.body[0].exc.func, ast.Name) and isinstance(b1.test, ast.Compare)
+                and len(b1.test.ops) == 1 and isinstance(b1.test.ops[0], ast.Gt)):
+            raise Unrec(b1, 'expected `if it > 1000: raise BCTParamError(…)`')
+        f['itT'], f['itLim'], f['exc'] = X.nm(b1.test.left, 'counter'), X.nat(b1.test.comparators[0], 'limit'), q(b1.body[0].exc.func.id)
+        t, v = X.assign(b2, 'flag = False')
+        f['flR'], f['flRVal'] = X.nm(t, 'target'), boollit(v, 'value')
+        it = lp.iter if isinstance(lp, ast.For) else None
+        if not (it is not None and not lp.orelse and isinstance(it, ast.Call) and isinstance(it.func, ast.Attribute) and it.func.attr == 'permutation'
+                and len(it.args) == 1 and not it.keywords):
+            raise Unrec(lp, 'expected `for i in rng.permutation(n):`')
+        f['u'], f['rng'], f['pn'] = X.nm(lp.target, 'loop variable'), X.nm(it.func.value, 'generator'), X.nm(it.args[0], 'size')
+        lb = list(lp.body)
+        w = 'ma = m[i] - 1'
+        t, v = X.assign(lb.pop(0), w)
+        mi, off = X.binop(v, ast.Sub, w)
+        mo, ix = sub(mi, w)
+        f['ma'], f['maOf'], f['maI'], f['maOff'] = X.nm(t, 'target'), X.nm(mo, 'labels'), X.nm(ix, 'node'), X.nat(off, 'offset')
+        if len(lb) < 4:
+            raise Unrec(lp, 'expected the gain statements, `dQ[ma] = 0`, `max_dq = np.max(dQ)` and `if max_dq > 1e-10:`')
+        iff, mxs, zs = lb[-1], lb[-2], lb[-3]
+        gains = lb[:-3]
+        if len(gains) == 1:
+            f['terms'] = lst([term(gains[0])])
+        elif len(gains) == 3:
+            f['terms'] = lst([term(gains[0]), term(gains[1])])
+            w = 'dq = (dq_o + dq_i) / 2'
+            t, v = X.assign(gains[2], w)
+            sm_, cd = X.binop(v, ast.Div, w)
+            c1, c2 = X.binop(sm_, ast.Add, w)
+            f['comb'] = 'some (%s, %s, %s, %s)' % (X.nm(t, 'target'), X.nm(c1, 'summand'), X.nm(c2, 'summand'), X.nat(cd, 'divisor'))
+        else:
+            raise Unrec(lp, 'expected one gain statement, or two and their mean, found %d statements' % len(gains))
+        w = 'dQ[ma] = 0'
+        t, v = X.assign(zs, w)
+        zv_, zi_ = sub(t, w)
+        f['z'], f['zi'], f['zv'] = X.nm(zv_, 'gain vector'), X.nm(zi_, 'module'), X.nat(v, 'value')
+        w = 'max_dq = np.max(dQ)'
+        t, v = X.assign(mxs, w)
+        f['mx'], f['mxOf'] = X.nm(t, 'target'), X.nm(X.np1(v, 'max', w)[0], 'gain vector')
+        if not (isinstance(iff, ast.If) and not iff.orelse and isinstance(iff.test, ast.Compare) and len(iff.test.ops) == 1
+                and isinstance(iff.test.ops[0], ast.Gt) and isinstance(iff.test.comparators[0], ast.Constant)
+                and type(iff.test.comparators[0].value) in (int, float) and len(iff.body) >= 3):
+            raise Unrec(iff, 'expected `if max_dq > 1e-10:`')
+        import fractions as _fr
+        import decimal as _dec
+        thr = _fr.Fraction(_dec.Decimal(repr(iff.test.comparators[0].value)))
+        if thr < 0:
+            raise Unrec(iff, 'expected a non-negative threshold')
+        f['tl'], f['thrNum'], f['thrDen'] = X.nm(iff.test.left, 'tested name'), '%d' % thr.numerator, '%d' % thr.denominator
+        ib = list(iff.body)
+        w = 'j = np.argmax(dQ)'
+        t, v = X.assign(ib.pop(0), w)
+        f['j'], f['amOf'] = X.nm(t, 'target'), X.nm(X.np1(v, 'argmax', w)[0], 'gain vector')
+        flag_st, lab_st = ib.pop(), ib.pop()
+        cols, vecs = [], []
+        for st in ib:
+            kind, txt = upd(st)
+            if kind == 'col' and vecs:
+                raise Unrec(st, 'expected the column updates before the vector updates')
+            (cols if kind == 'col' else vecs).append(txt)
+        f['cols'], f['vecs'] = lst(cols), lst(vecs)
+        w = 'm[i] = j + 1'
+        t, v = X.assign(lab_st, w)
+        mo, ix = sub(t, w)
+        jv, off = X.binop(v, ast.Add, w)
+        f['sm'], f['smi'], f['smv'], f['smOff'] = X.nm(mo, 'labels'), X.nm(ix, 'node'), X.nm(jv, 'module'), X.nat(off, 'offset')
+        t, v = X.assign(flag_st, 'flag = True')
+        f['flS'], f['flSVal'] = X.nm(t, 'target'), boollit(v, 'value')
+    except Unrec as e:
+        r.bad(e.node if hasattr(e.node, 'lineno') else fn, e.msg)
+    return r
+
+
 def modq_extra():
     path = os.path.join(common.REPO, 'bct', 'algorithms', 'modularity.py')
     fns, err = parse_functions(path)
@@ -5795,7 +6144,43 @@ def modq_extra():
                    '  Bct.Cores.Mod.%s _ %s_agg_ok W m s γ\n' % (name, name, model, model, link, name))
         problems += list(r.problems)
         routines[name + ' (aggregation step)'] = dict(getattr(r, 'counts', {}), line=r.line, recognised=not r.problems)
-    return {'imports': ['import BctVerif.Props.CoresMod'], 'lean': out, 'problems': problems, 'routines': routines}
+    for name, ref, st, kern, emb, init, linit, lpass in (
+            ('modularity_louvain_und', 'refUnd', 'UndSt', 'undKern', 'embU', 'undInitLevel', 'link_init_und', 'link_pass_und'),
+            ('modularity_louvain_dir', 'refDir', 'DirSt', 'dirKern', 'embD', 'dirInitLevel', 'link_init_dir', 'link_pass_dir')):
+        if name not in fns:
+            r = Routine(name, path); r.problems.append('%s: %s' % (name, err or 'function not found in ' + path))
+            r.fields = None
+        else:
+            try:
+                r = extract_sweep(fns[name], path)
+                name_check(r, fns[name], path, lenient=True)
+            except Exception as e:  # noqa — an extractor crash must not look like success
+                r = Routine(name, path); r.problems.append('%s: extractor raised %s: %s' % (name, type(e).__name__, e))
+                r.fields = None
+        f = r.fields or dict(sweep_default(), name=q(name), params='[]', defaults='[]')
+        relb = os.path.basename(path)
+        a, b = r.parts.get('body', (r.line, r.line))
+        for p in r.problems:
+            out.append('-- NOT RECOGNISED: ' + p.replace('\n', ' '))
+        out.append('/-- the node-moving pass of `%s` (%s:%d-%d): from the degree vectors to the end of `while flag:` -/' % (name, relb, a, b))
+        out.append('def sweep_%s : Bct.CoreIR.Louv.SweepIR :=\n  { recognised := %s, origins := %s,\n    %s }\n'
+                   % (name, 'true' if not r.problems else 'false', lean_origins(r), ',\n    '.join('%s := %s' % (k, f[k]) for k in SWEEP_FIELDS)))
+        out.append('theorem %s_sweep_ok : Bct.CoreIR.Louv.sweepOk Bct.CoreIR.Louv.%s sweep_%s = true := by\n  first | decide | fail "%s_sweep_ok: the '
+                   'statements from the degree vectors to the end of `while flag:` extracted from %s (%s:%d-%d) %s"\n'
+                   % (name, ref, name, name, name, relb, a, b,
+                      'were not all recognised by translate/cores.py' if r.problems else 'are not the expected program'))
+        out.append('theorem %s_sweep_init_computes {n : Nat} (W : Bct.Modularity.RMat n) (s γ : Rat) :\n'
+                   '    Bct.CoreIR.Louv.runInit sweep_%s W s γ = some (Bct.Cores.Louv.%s (Bct.Modularity.%s W s γ) (Bct.Modularity.idLab n)) :=\n'
+                   '  Bct.Cores.Louv.%s _ %s_sweep_ok W s γ\n' % (name, name, emb, init, linit, name))
+        out.append('theorem %s_sweep_computes {n : Nat} (x : Bct.Modularity.PSt (Bct.Modularity.%s n) n) (hg : x.g.guide = none) (hs : x.st.s ≠ 0)\n'
+                   '    (us : List (Fin n)) :\n'
+                   '    Bct.CoreIR.Louv.runPass sweep_%s us (Bct.Cores.Louv.%s x.st x.m, false) =\n'
+                   '      some (Bct.Cores.Louv.%s (Bct.Modularity.pass (Bct.Modularity.%s n) n x us).1.st (Bct.Modularity.pass (Bct.Modularity.%s n) n x us).1.m,\n'
+                   '            (Bct.Modularity.pass (Bct.Modularity.%s n) n x us).2) :=\n'
+                   '  Bct.Cores.Louv.%s _ %s_sweep_ok x hg hs us\n' % (name, st, name, emb, emb, kern, kern, kern, lpass, name))
+        problems += list(r.problems)
+        routines[name + ' (node-moving pass)'] = dict(getattr(r, 'counts', {}), line=r.line, recognised=not r.problems)
+    return {'imports': ['import BctVerif.Props.CoresMod', 'import BctVerif.Props.CoresLouv'], 'lean': out, 'problems': problems, 'routines': routines}
 
 
 def family_modq():
